@@ -102,8 +102,39 @@ fn render(t: &[(i128, u8)], n: usize, tag: usize) -> String {
     s
 }
 
+/// A per-thread object that is registered BEFORE the thread's first use of the library and whose
+/// destructor — run while the thread is being torn down, after thread-locals registered later
+/// have been destroyed — converts once more (a per-thread log flushed at exit does that).
+struct ExitProbe {
+    id: usize,
+    t: Vec<(i128, u8)>,
+}
+
+impl Drop for ExitProbe {
+    fn drop(&mut self) {
+        for &(ts, dat) in [self.t[3], self.t[27]].iter() {
+            let u = (ts + 5) * NS;
+            let e = Epoch::from_duration(dur(u), TimeScale::UTC);
+            let got = parts_ns(e.to_time_scale(TimeScale::TAI).duration) - u;
+            let iers = e.to_time_scale(TimeScale::TAI).leap_seconds_iers();
+            if got != dat as i128 * NS || iers != dat as i32 {
+                eprintln!(
+                    "CONC-VIOLATION client {} while its thread is being torn down: UTC->TAI at UTC {} s adds {} ns (leap_seconds_iers {}), want {} s",
+                    self.id, ts + 5, got, iers, dat
+                );
+                std::process::exit(101);
+            }
+        }
+    }
+}
+
+thread_local! {
+    static AT_EXIT: std::cell::RefCell<Option<ExitProbe>> = const { std::cell::RefCell::new(None) };
+}
+
 fn client(id: usize, seed: u64, ops: usize, start: &std::sync::Barrier) {
     let t = table();
+    AT_EXIT.with(|p| *p.borrow_mut() = Some(ExitProbe { id, t: t.clone() }));
     let mut r = Lcg(seed ^ (id as u64 + 1).wrapping_mul(0x9E37_79B9_7F4A_7C15));
     // each client loads a different bulletin (a different prefix of the real list)
     let my_n = 28 - (id * 5) % 20;
